@@ -13,6 +13,7 @@ Inductive pcase :=
 | PCInts (v : gval) (r : pimpl (list Z))                                       (* parser.ParseIntergers(v, true) *)
 | PCNumber (v : gval) (r : pimpl Z)                                            (* parser.ParseIntegerNumber(v, true) *)
 | PCRange (op : vop) (v : gval) (r : pimpl (Z * Z))                            (* rangeholder.ParseRange(op, v, true): left, right *)
+| PCRangeNF (op : vop) (v : gval) (r : pimpl (Z * Z))                          (* rangeholder.ParseRange(op, v, false): a holder configured with EnableFloat2Int = false *)
 | PCNil (v : gval) (r : pimpl bool)                                            (* util.NilInterface *)
 | PCAcDict (v : gval) (r : pimpl (list text))                                  (* ahoholder.ParseAcMatchDict *)
 | PCAcText (v : gval) (r : pimpl text)                                         (* ahoholder.BuildAcMatchContent(v, " ") *)
@@ -111,6 +112,12 @@ Definition spec_verdict (c : pcase) : bool * bool * N :=
     | PIOk (l, rr) => (match denote_range op v with
                        | Some (el, er) => (l =? el) && ((rr =? er) || ((er =? two63) && (rr =? two63 - 1)))
                        | None => false end, true, 36%N)
+    end
+  | PCRangeNF op v r =>
+    (* without float-to-integer conversion a float operand of > or < is no integer: refused, not truncated *)
+    match op, v with
+    | OpGT, VFloat _ _ | OpLT, VFloat _ _ => (match r with PIErr => true | _ => false end, true, 37%N)
+    | _, _ => (pimpl_total r, true, 30%N)
     end
   | PCNil v r => (pimpl_total r, true, 30%N)
   | PCAcDict v r =>
